@@ -958,3 +958,54 @@ func RepeatCR3(o RepeatOpts) []byte {
 	out = append(out, Box("mdat", make([]byte, 64))...)
 	return out
 }
+
+// ManyTiny builds a file that consists of n copies of the smallest thing of one kind:
+// 0: a HEIF meta box holding n empty hdlr (sub 0), iref (1) or iinf (2) boxes
+// 1: a CR3 moov box holding n minimal preview uuid boxes (a PRVW header and nothing else)
+// 2: a JPEG with n tiny XMP APP1 segments
+// 3: an XMP packet with n date properties whose value is a date followed by junk bytes
+func ManyTiny(kind, sub, n, junk int) []byte {
+	switch kind {
+	case 0:
+		typ := []string{"hdlr", "iref", "iinf"}[sub%3]
+		inner := make([]byte, 0, 8*n+64)
+		one := Box(typ)
+		for i := 0; i < n; i++ {
+			inner = append(inner, one...)
+		}
+		out := Box("ftyp", []byte("heic"), be32(0), []byte("mif1heic"))
+		out = append(out, fullBox("meta", 0, 0, inner)...)
+		return append(out, Box("mdat", make([]byte, 64))...)
+	case 1:
+		one := Box("uuid", uuidPreview, be32(0), be32(1), Box("PRVW", be32(0), be16(1), be16(160), be16(120), be16(1), be32(uint32(junk))))
+		moov := Box("uuid", uuidCanonMeta, Box("CNCV", []byte("CanonCR3_001/00.09.00/00.00.00")))
+		for i := 0; i < n; i++ {
+			moov = append(moov, one...)
+		}
+		out := Box("ftyp", []byte("crx "), be32(1), []byte("crx isom"))
+		out = append(out, Box("moov", moov)...)
+		return append(out, Box("mdat", make([]byte, 64))...)
+	case 2:
+		out := []byte{0xff, 0xd8}
+		pkt := append([]byte("http://ns.adobe.com/xap/1.0/\x00"), "<x:xmpmeta/>"...)
+		for i := 0; i < n; i++ {
+			out = append(out, 0xff, 0xe1, byte((len(pkt)+2)>>8), byte(len(pkt)+2))
+			out = append(out, pkt...)
+		}
+		out = append(out, 0xff, 0xdb, 0, 67)
+		out = append(out, make([]byte, 65)...)
+		return append(out, make([]byte, 128)...)
+	default:
+		j := make([]byte, junk)
+		for i := range j {
+			j[i] = []byte{1, 'x', 0x7f, ' '}[sub%4]
+		}
+		out := []byte("<x:xmpmeta xmlns:x='adobe:ns:meta/'><rdf:RDF xmlns:rdf='http://www.w3.org/1999/02/22-rdf-syntax-ns#'>")
+		for i := 0; i < n; i++ {
+			out = append(out, "<rdf:Description rdf:about='' xmlns:xmp='http://ns.adobe.com/xap/1.0/' xmp:CreateDate='2020-01-02T03:04:05"...)
+			out = append(out, j...)
+			out = append(out, "'/>"...)
+		}
+		return append(out, "</rdf:RDF></x:xmpmeta>"...)
+	}
+}
